@@ -20,6 +20,23 @@ pub(super) struct Recv {
     pub(super) stopped: bool,
 }
 
+#[cfg(quinn_rs_quinn_verif)]
+impl Recv {
+    /// Read-only probe for the verification hooks:
+    /// `[state tag (0 = Recv, size unknown; 1 = Recv, size known; 2 = ResetRecvd), final size or -1,
+    /// reset code or -1, sent_max_stream_data]`
+    pub(super) fn verif_probe(&self) -> [i128; 4] {
+        let (tag, size, code) = match self.state {
+            RecvState::Recv { size: None } => (0, -1, -1),
+            RecvState::Recv { size: Some(s) } => (1, s as i128, -1),
+            RecvState::ResetRecvd { size, error_code } => {
+                (2, size as i128, error_code.into_inner() as i128)
+            }
+        };
+        [tag, size, code, self.sent_max_stream_data as i128]
+    }
+}
+
 impl Recv {
     pub(super) fn new(initial_max_data: u64) -> Box<Self> {
         Box::new(Self {
